@@ -178,3 +178,92 @@ Definition stmt_hand_reduce_commutes : Prop :=
   forall (cones : list cone) (keep : list bool),
     length keep = total cones -> drops_only_scalar cones keep ->
     new_collapsed (hand_reduce cones keep) = reduce_cones (new_collapsed cones) keep.
+
+(** ** the global bound with several live solvers: every history *)
+Section GlobalStmts.
+Context {T : Type} (O : Ops T).
+Notation gop := (@gop T).
+Notation gstate := (@gstate T).
+Notation solverM := (@solverM T).
+
+Fixpoint gcell_after (dflt c : T) (ops : list gop) : T :=
+  match ops with
+  | [] => c
+  | GSet v :: r => gcell_after dflt v r
+  | GDefault :: r => gcell_after dflt dflt r
+  | _ :: r => gcell_after dflt c r
+  end.
+Definition is_new (o : gop) : bool := match o with GNew _ _ _ _ => true | _ => false end.
+Definition count_new (ops : list gop) : nat := length (filter is_new ops).
+Definition updates (k : nat) (o : gop) : Prop := exists nb, o = GUpdateB k nb.
+(** everything in a solver object except the right-hand side that update_b may overwrite *)
+Definition frozen (sv : solverM) :=
+  (sv_bound sv, sv_m sv, iA (sv_int sv), icones (sv_int sv), ikeep (sv_int sv)).
+
+(** the cell holds the last value set (or the default after default_infinity); get returns it;
+    building, solving and updating never write it *)
+Definition stmt_gcell : Prop :=
+  forall (dflt eps ten : T) (s : gstate) (pre post : list gop),
+    g_cell (gafter O dflt eps ten s pre) = gcell_after dflt (g_cell s) pre /\
+    nth (length pre) (grun O dflt eps ten s (pre ++ [GGet] ++ post)) ONone
+      = OGet (gcell_after dflt (g_cell s) pre) /\
+    (forall v, gcell_after dflt (g_cell s) (pre ++ [GSet v]) = v) /\
+    gcell_after dflt (g_cell s) (pre ++ [GDefault]) = dflt.
+
+(** an existing solver is never changed by later operations, whatever they are, except that an
+    accepted update_b addressed to it replaces its right-hand side *)
+Definition stmt_gfrozen : Prop :=
+  forall (dflt eps ten : T) (s : gstate) (ops : list gop) (k : nat) (sv : solverM),
+    nth_error (g_solvers s) k = Some sv ->
+    exists sv', nth_error (g_solvers (gafter O dflt eps ten s ops)) k = Some sv' /\
+                frozen sv' = frozen sv /\
+                ((forall o, In o ops -> ~ updates k o) -> sv' = sv).
+
+(** a solver built after history [pre] is the [build] under the bound then in the cell; what a
+    later solve reports (rows restored, fill values s = that bound, z = 0) and its capped internal
+    right-hand side depend on nothing else -- in particular not on the cell at solve time, nor on
+    other solvers built under other bounds in between *)
+Definition stmt_gsolve : Prop :=
+  forall (dflt eps ten : T) (s : gstate) (pre mid post : list gop)
+         (pe : bool) (A : @csc T) (b : list T) (cones : list cone),
+    let c := gcell_after dflt (g_cell s) pre in
+    let I := build O pe eps ten c A b cones in
+    let k := length (g_solvers s) + count_new pre in
+    let ops := pre ++ [GNew pe A b cones] ++ mid ++ [GSolve k] ++ post in
+    nth (length pre) (grun O dflt eps ten s ops) ONone = ONew (ikeep I) (ib I) (icones I) /\
+    exists b',
+      nth (length pre + 1 + length mid) (grun O dflt eps ten s ops) ONone
+        = OSolve (keep_or_all I (length b)) c (zero O) b' /\
+      ((forall o, In o mid -> ~ updates k o) -> b' = ib I).
+
+(** update_b: refused on a presolved solver (state unchanged), otherwise stored as given --
+    without reading the cell *)
+Definition stmt_gupdate : Prop :=
+  forall (dflt eps ten : T) (s : gstate) (k : nat) (nb : list T) (sv : solverM),
+    nth_error (g_solvers s) k = Some sv ->
+    let '(s', out) := gstep O dflt eps ten s (GUpdateB k nb) in
+    g_cell s' = g_cell s /\
+    (ikeep (sv_int sv) <> None -> s' = s /\ out = OUpd false (ib (sv_int sv))) /\
+    (ikeep (sv_int sv) = None -> nb <> [] -> length nb = length (ib (sv_int sv)) ->
+       out = OUpd true nb /\
+       nth_error (g_solvers s') k = Some (mkSolver (sv_bound sv) (sv_m sv) (set_ib (sv_int sv) nb))).
+End GlobalStmts.
+
+(** ** the reverse map of the solution, all parts together: x untouched, s and z of the user's
+    length, kept rows in place and in order, dropped rows s = captured bound, z = 0 *)
+Section ReverseStmt.
+Context {T : Type} (O : Ops T).
+Definition reverse_sol (keep : option (list bool)) (bound : T) (xsz : list T * list T * list T) :=
+  let '(x, s, z) := xsz in (x, reverse_s keep bound s, reverse_z O keep z).
+Definition stmt_reverse : Prop :=
+  forall (keep : list bool) (bound : T) (x s z : list T),
+    length s = count_true keep -> length z = count_true keep ->
+    let '(x', s', z') := reverse_sol (Some keep) bound (x, s, z) in
+    x' = x /\ length s' = length keep /\ length z' = length keep /\
+    select s' keep = s /\ select z' keep = z /\
+    (forall i, i < length keep -> nth i keep true = false ->
+       nth i s' (zero O) = bound /\ nth i z' bound = zero O) /\
+    (forall i, nth i keep false = true ->
+       nth i s' (zero O) = nth (rank keep i) s (zero O) /\ nth i z' (zero O) = nth (rank keep i) z (zero O)) /\
+    (forall xsz, reverse_sol None bound xsz = xsz).
+End ReverseStmt.
